@@ -87,7 +87,7 @@ TABLE = {
     'stdnum.it.codicefiscale': [('calc_check_digit', guard(lambda v: len(v) == 16, last(1)))],
     'stdnum.jp.cn': [('calc_check_digit', first(1))],
     'stdnum.lv.pvn': [('calc_check_digit_pers', guard(lambda v: len(v) == 11 and v[0] <= '3', last(1)))],
-    'stdnum.meid': [],   # validate() strips the check digit; covered by C08 (MEID conversions)
+    'stdnum.meid': [('calc_check_digit', guard(lambda v: len(v) in (15, 19), last(1)), {'kw': {'strip_check_digit': False}})],
     'stdnum.mx.curp': [('calc_check_digit', full_last(1))],
     'stdnum.mx.rfc': [('calc_check_digit', guard(lambda v: len(v) in (12, 13), last(1)), {'kw': {'validate_check_digits': True}})],
     'stdnum.no.fodselsnummer': [('calc_check_digit1', at(ident, 9)), ('calc_check_digit2', at(ident, 10))],
